@@ -56,3 +56,128 @@ MUTANTS += [
  dict(id="C10-new-with-offset-dropped", props=["C10"], expect={"C10": r"table#ValidUntil::new"},
       edits=[(CM+"lib.rs", ".map(|elapsed| Self(SecondsSinceServerStart(elapsed.0 + offset_seconds)))", ".map(|elapsed| Self(SecondsSinceServerStart(elapsed.0.max(offset_seconds))))")]),
 ]
+
+VAL = US + "workers/socket/validator.rs"
+MUTANTS += [
+ dict(id="C05-expiry-ge", props=["C05"], expect={"C05": r"valid#table"},
+      edits=[(VAL, "client_expiration_time > seconds_since_start;", "client_expiration_time >= seconds_since_start;")]),
+ dict(id="C05-future-600", props=["C05"], expect={"C05": r"valid#table"},
+      edits=[(VAL, "client_elapsed <= (seconds_since_start + 60);", "client_elapsed <= (seconds_since_start + 600);")]),
+ dict(id="C05-add-in-u32", props=["C05"], expect={"C05": r"valid#(table|u64_arithmetic|widening)"},
+      edits=[(VAL, "let client_elapsed = u64::from(u32::from_ne_bytes(elapsed));\n        let client_expiration_time = client_elapsed + self.max_connection_age;",
+              "let client_elapsed = u64::from(u32::from_ne_bytes(elapsed));\n        let client_expiration_time = u64::from(u32::from_ne_bytes(elapsed).wrapping_add(self.max_connection_age as u32));")]),
+ dict(id="C05-hash-without-ip", props=["C05"], expect={"C05": r"mac#V4"},
+      edits=[(VAL, "IpAddr::V4(ip) => self.keyed_hasher.update(&ip.octets()),", "IpAddr::V4(_ip) => &mut self.keyed_hasher,")]),
+ dict(id="C05-constant-key", props=["C05"], expect={"C05": r"key#provenance"},
+      edits=[(VAL, "fill(&mut key).with_context(|| \"Couldn't get random bytes for ConnectionValidator key\")?;", "if config.cleaning.max_connection_age == 0 { fill(&mut key).with_context(|| \"Couldn't get random bytes for ConnectionValidator key\")?; }")]),
+ dict(id="C05-compare-with-eq", props=["C05"], expect={"C05": r"valid#(table|no_plain_eq)"},
+      edits=[(VAL, "if !constant_time_eq(hash, &self.hash(elapsed, source_addr.get().ip())) {", "if hash != &self.hash(elapsed, source_addr.get().ip())[..] {")]),
+ dict(id="C05-create-hash-includes-port", props=["C05"], expect={"C05": r"create#(layout|same_address_accessor)"},
+      edits=[(VAL, "let hash = self.hash(elapsed, source_addr.get().ip());\n\n        let mut connection_id_bytes", "let hash = self.hash(elapsed, source_addr.get_ipv6_mapped().ip());\n\n        let mut connection_id_bytes")]),
+ dict(id="C05-validator-per-worker", props=["C05"], expect={"C05": r"key#single_instance"},
+      edits=[(US + "lib.rs", "let connection_validator = connection_validator.clone();", "let connection_validator = ConnectionValidator::new(&config)?;")]),
+ dict(id="C05-no-mac-check-when-recent", props=["C05"], expect={"C05": r"valid#table"},
+      edits=[(VAL, "if !constant_time_eq(hash, &self.hash(elapsed, source_addr.get().ip())) {", "if u32::from_ne_bytes(elapsed) != self.seconds_since_start && !constant_time_eq(hash, &self.hash(elapsed, source_addr.get().ip())) {")]),
+]
+
+# behaviour-preserving edits: the checks must stay silent
+MUTANTS += [
+ dict(id="BENIGN-C05-shortcircuit-and-flipped-compare", props=["C05"], benign=True,
+      edits=[(VAL, "let client_not_expired = client_expiration_time > seconds_since_start;", "let client_not_expired = seconds_since_start < client_expiration_time;"),
+             (VAL, "client_not_expired & client_elapsed_not_in_far_future", "client_not_expired && client_elapsed_not_in_far_future")]),
+ dict(id="BENIGN-C10-rename-and-temp", props=["C10"], benign=True,
+      edits=[(HS+"storage.rs", "self.0.retain(|(_, peer)| peer.valid_until.valid(now));", "self.0.retain(|(_, p)| { let deadline = p.valid_until; deadline.valid(now) });")]),
+ dict(id="BENIGN-C13-reorder-independent", props=["C13"], benign=True,
+      edits=[(UP+"request.rs", "    Started = 2_i32.to_be(),\n    Stopped = 3_i32.to_be(),", "    Stopped = 3_i32.to_be(),\n    Started = 2_i32.to_be(),")]),
+]
+
+AC = CM + "access_list.rs"
+MUTANTS += [
+ dict(id="C11-deny-contains", props=["C11"], expect={"C11": r"table#AccessList::allows"},
+      edits=[(AC, "            AccessListMode::Deny => !self.0.contains(info_hash),", "            AccessListMode::Deny => self.0.contains(info_hash),")]),
+ dict(id="C11-udp-mio-gate-after-announce", props=["C11"], expect={"C11": r"gate#udp_mio#dominates"},
+      edits=[(US+"workers/socket/mio/mod.rs", """                    if self
+                        .access_list_cache
+                        .load()
+                        .allows(access_list_mode, &request.info_hash.0)
+                    {
+                        let response = self.shared_state.torrent_maps.announce(
+                            &self.config,
+                            &self.statistics_sender,
+                            &mut self.rng,
+                            &request,
+                            src,
+                            self.peer_valid_until,
+                        );
+
+                        return Some(response);""", """                    let response = self.shared_state.torrent_maps.announce(
+                            &self.config,
+                            &self.statistics_sender,
+                            &mut self.rng,
+                            &request,
+                            src,
+                            self.peer_valid_until,
+                        );
+                    if self
+                        .access_list_cache
+                        .load()
+                        .allows(access_list_mode, &request.info_hash.0)
+                    {
+                        return Some(response);""")]),
+ dict(id="C11-uring-gate-off-mode-only", props=["C11"], expect={"C11": r"gate#udp_uring#(dominates|arguments)"},
+      edits=[(US+"workers/socket/uring/mod.rs", ".allows(access_list_mode, &request.info_hash.0)", ".allows(aquatic_common::access_list::AccessListMode::Off, &request.info_hash.0)")]),
+ dict(id="C11-store-empty-before-parse", props=["C11"], expect={"C11": r"reload#store_ok_payload"},
+      edits=[(AC, "        self.store(Arc::new(AccessList::create_from_path(&config.path)?));", "        self.store(Arc::new(AccessList::default()));\n        self.store(Arc::new(AccessList::create_from_path(&config.path)?));")]),
+ dict(id="C11-bad-line-ignored", props=["C11"], expect={"C11": r"reload#(parse_propagates|no_swallow)"},
+      edits=[(AC, "                .with_context(|| format!(\"Invalid line in access list: {}\", line))?;", "                .with_context(|| format!(\"Invalid line in access list: {}\", line)).ok();")]),
+ dict(id="C11-ws-clean-without-allows", props=["C11"], expect={"C11": r"clean#ws#"},
+      edits=[(WS+"storage.rs", """            if !access_list_cache
+                .load()
+                .allows(config.access_list.mode, &info_hash.0)
+            {
+                return false;
+            }
+
+            let num_peers = torrent_data.clean_and_get_num_peers(now);""", """            let _ = (&access_list_cache, info_hash);
+
+            let num_peers = torrent_data.clean_and_get_num_peers(now);""")]),
+ dict(id="C11-http-clean-allows-after-peers", props=["C11"], expect={"C11": r"clean#http#(first_decision|forbidden_dropped)"},
+      edits=[(HS+"storage.rs", """            if !access_list_cache
+                .load()
+                .allows(config.access_list.mode, &info_hash.0)
+            {
+                return false;
+            }
+
+            let num_peers = match torrent_data {""", """            if !access_list_cache
+                .load()
+                .allows(config.access_list.mode, &info_hash.0)
+                && !matches!(torrent_data, TorrentData::Large(_))
+            {
+                return false;
+            }
+
+            let num_peers = match torrent_data {""")]),
+ dict(id="C11-ws-gate-records-before-check", props=["C11"], expect={"C11": r"gate#ws#dominates"},
+      edits=[("crates/ws/src/workers/socket/connection.rs", """        let info_hash = request.info_hash;
+
+        if self
+            .access_list_cache
+            .load()
+            .allows(self.config.access_list.mode, &info_hash.0)
+        {
+            let mut announced_info_hashes = self.clean_up_data.announced_info_hashes.borrow_mut();
+""", """        let info_hash = request.info_hash;
+
+        self.clean_up_data.announced_info_hashes.borrow_mut().entry(request.info_hash).or_insert(request.peer_id);
+
+        if self
+            .access_list_cache
+            .load()
+            .allows(self.config.access_list.mode, &info_hash.0)
+        {
+            let mut announced_info_hashes = self.clean_up_data.announced_info_hashes.borrow_mut();
+""")]),
+ dict(id="C11-parse-hash-19-bytes", props=["C11"], expect={"C11": r"reload#parse_info_hash"},
+      edits=[(AC, "    let mut bytes = [0u8; 20];\n\n    hex::decode_to_slice(line, &mut bytes)?;", "    let mut bytes = [0u8; 20];\n\n    hex::decode_to_slice(line, &mut bytes[..19])?;")]),
+]
